@@ -13,7 +13,7 @@ BOUND = {
  "C07": "complete in both tiers; plus one sequential name-resolution history (14 names x 3 passes with failing look-ups, 42 ordered pairs x 10 named calendars incl. piped names in three letter cases and names of five and six calendars, another thread) and a supplementary concurrent first use",
  "C08": "every start date; offsets -40..40 / -130..130; all roll kinds; offsets to +-2 771; month pairs (a seventh of / all first months x all second months)",
  "C09": "all labelled trees n <= 5 (+ n = 6 with 2 orderings) / n <= 6; every shape <= 9 / 12; five shapes on 10 .. 13 currencies; rejection space on 4 / 4-5 currencies and on the broken large shapes; settlement instants half a second apart; clones",
- "C10": "36 / 52 markets to fixpoint with the settlement date as part of the state (rolled between 2 / 3 dates); sensitivities n <= 4 / 5 and a menu on 8 .. 13 currencies; large-market histories of length 2 / 3; clone independence in every transition; quotes whose variable carries another quote's automatic name; every history of length 5 / 6 on the two smallest markets without merging states",
+ "C10": "29 / 52 markets to fixpoint with the settlement date as part of the state (rolled between 2 / 3 dates); sensitivities n <= 4 / 5 and a menu on 8 .. 13 currencies; large-market histories of length 2 / 3; clone independence in every transition; quotes whose variable carries another quote's automatic name; every history of length 5 / 6 on the two smallest markets without merging states",
  "C11": "n <= 5 / 6 nodes, all supply permutations; index_left lists <= 9 / 11 and long lists <= 48 / 130; 7 .. 300 nodes on six grids, 1 023 .. 2 100 evenly spaced; look-ups 1 ms either side of every node",
  "C12": "3 600 / more initial curves to fixpoint; 9 .. 210 nodes on six grids through the switches 1, 2, 1, 0, 2; every ordered pair of 40 (curve id, node count) configurations; clone independence; nodes on shared variables in permuted order through every switch sequence of length 3 / 4",
  "C13": "all patterns <= 3x3, every 7th 4x4 / all 65 536; permutations 4..5 / 6, generator set <= 8, four permutations of 9 .. 33; two row-scale vectors; tiny entry at six magnitudes and four extreme scales; curved entries; graded systems 3 .. 12 in both row orders; square systems with least squares allowed; tall <= 12x6",
